@@ -287,7 +287,26 @@ def gen_table(r, k):
             tags.append("many-entries")
             for i in (0, -1, -61, -62, 61 + len(ctx.dyn), 62 + len(ctx.dyn), 63 + len(ctx.dyn), 1, 61, 62):
                 ops.append(("get", i))
-        long_history = (not big) and r.random() < 0.04
+        large = (not big) and r.random() < 0.06
+        if large:
+            # a table larger than the default with more entries than the default could ever hold (4096 // 32 = 128):
+            # bounds derived from the size at construction would bite here; then boundary lookups, a shrink, lookups
+            m = r.choice([8192, 16384, 65536])
+            ctx.resize(m)
+            ops[:] = [("set", m)]
+            for i in range(r.choice([129, 130, 160, 227])):
+                n, v = r.choice([b"", b"k"]), b"%03d" % i
+                ctx.insert(n, v)
+                ops.append(("add", n, v))
+            tags.append("more-than-128-entries")
+            hi = 61 + len(ctx.dyn)
+            for i in (62, hi - 1, hi, hi + 1, 61 + 128, 61 + 129, 61 + 130):
+                ops.append(("get", i))
+            ops.append(("search", b"k", b"000"))
+            m2 = r.choice([4096, 4608, 36 * 129, 35 * 129 + 1])
+            ctx.resize(m2)
+            ops.append(("set", m2))
+        long_history = (not big) and (not large) and r.random() < 0.04
         if long_history:
             tags.append("long-history")
         for _ in range(0 if big else r.choice([300, 700]) if long_history else r.randrange(3, 14)):
@@ -550,11 +569,19 @@ def gen_bigtable(r, k):
         d = "t%d" % ci
         n = r.choice([62, 63, 70, 100, 113])
         fill = b"".join(S.rep_literal("inc", b"k", b"%03d" % i) for i in range(n))
-        cmds = ["dnew %s %s" % (d, zs(2 ** 30)), "ddec %s 1 %s" % (d, hx(fill))]
+        cmds = ["dnew %s %s" % (d, zs(2 ** 30))]
+        tg = []
+        if r.random() < 0.4:
+            # the peer raises the table above the default and fills it with more entries than the default could hold
+            n = r.choice([129, 130, 200])
+            fill = S.rep_size(16384) + b"".join(S.rep_literal("inc", b"k", b"%03d" % i) for i in range(n))
+            cmds.append("dsetmax %s %s" % (d, zs(16384)))
+            tg = ["more-than-128-entries"]
+        cmds.append("ddec %s 1 %s" % (d, hx(fill)))
         for probe in (b"\x80", b"\x82\x80", S.rep_indexed(61 + n), S.rep_indexed(62 + n), S.rep_literal("no", b"", b"v", 0 if False else 62 + n),
                       S.rep_literal("inc", b"", b"v", 61 + n), b"\x40\x00\x00", b"\x00\x00\x00"):
             cmds.append("ddec %s %d %s" % (d, r.randrange(2), hx(probe)))
-        cases.append({"family": "dec", "cmds": cmds, "meta": {}, "tags": ["many-entries", "defect:index-zero", "dynamic-index"]})
+        cases.append({"family": "dec", "cmds": cmds, "meta": {}, "tags": ["many-entries", "defect:index-zero", "dynamic-index"] + tg})
     return cases
 
 
@@ -614,7 +641,26 @@ def gen_pair(r, k, shared_pool=None):
         for bi in range(r.choice([40, 150]) if long_history else r.choice([1, 2, 3, 4, 6])):
             # table-size changes between blocks
             sets = []
-            if r.random() < 0.45:
+            if r.random() < 0.04:
+                # a burst of settings between two blocks (more than any small backlog could hold), the smallest early
+                lo = r.choice([0, 0, 32, 100])
+                burst = [lo] + [r.choice([4096, min(8192, dlimit), r.randrange(lo + 1, 4096)])
+                                for _ in range(r.choice([16, 17, 18, 33, 70]))]
+                if r.random() < 0.5:
+                    burst.insert(0, r.choice([4096, 200]))
+                for v in burst:
+                    v = min(v, dlimit)
+                    sets.append(v)
+                    cmds.append("eset %s %s" % (e, zs(v)))
+                    cur_size = v
+                tags += ["size-change", "size-burst"]
+            elif dlimit > 8192 and r.random() < 0.1:
+                v = r.choice([16384, 65536])
+                sets.append(v)
+                cmds.append("eset %s %s" % (e, zs(v)))
+                cur_size = v
+                tags += ["size-change", "table-above-default"]
+            elif r.random() < 0.45:
                 for _ in range(r.choice([1, 1, 2, 3])):
                     v = r.choice([0, 32, 34, 40, 64, 66, 68, 100, 200, 4096, dlimit, cur_size, cur_size,
                                   r.randrange(0, 400)])
@@ -648,6 +694,10 @@ def gen_pair(r, k, shared_pool=None):
                     tags.append("sensitive")
                 if v == b"" and r.random() < 0.5:
                     tags.append("empty-value")
+            if cur_size > 8192 and r.random() < 0.6:
+                # enough small distinct fields to hold more than 128 entries at once
+                fields = [(r.choice([b"k", b"x-n"]), b"%03d" % (i + 1000 * bi), False) for i in range(r.choice([129, 140, 200]))]
+                tags.append("more-than-128-entries")
             if bi > 0 and blocks and r.random() < 0.3:
                 fields = list(blocks[r.randrange(len(blocks))]["fields"])       # repeat an earlier block
                 tags.append("repeated-block")
